@@ -258,7 +258,173 @@ def lean_prove(pid: str, thorough: bool):
                      and names and (res['leanchecker'] is None or res['leanchecker']['rc'] == 0))
     if not props_built and not res['failed']:
         res['failed'].append('BoltonsVerif.%s.Props (build failed before any theorem could be attributed)' % pid)
+    _srctie_prove(pid, res, thorough)    # --- source-translator tie (SrcTie) ---
     return res
+
+
+# --- source-translator tie (SrcTie) ---------------------------------------------------------------
+# For the properties listed in harness/srctie_specs.py a few pure functions of the repo under test are
+# translated to Lean on every run (harness/py2lean.py -> Generated/Src_<module>.lean) and
+# lean/BoltonsVerif/Cxx/SrcTie.lean proves the generated definitions equal to the hand model.  Its
+# theorems are obligations of the property exactly like those of Props.lean.  See notes/SRCTIE.md.
+
+def srctie_specs(pid: str):
+    hdir = os.path.join(VERIF, 'harness')
+    if hdir not in sys.path:
+        sys.path.insert(0, hdir)
+    import srctie_specs as _specs
+    return _specs.SPECS.get(pid, [])
+
+
+def srctie_regen(pid: str, notes: list):
+    """run the source translator for `pid`: (translator_ok, infos for the evidence)"""
+    if not srctie_specs(pid):
+        return True, []
+    import py2lean
+    try:
+        files, infos = py2lean.generate(pid, REPO)
+    except InfraError:
+        raise
+    except Exception as e:      # the translator itself failed: the proof side does not check
+        notes.append('source translator failed: %r' % (e,))
+        traceback.print_exc()
+        return False, []
+    with BuildLock():
+        changed = write_generated(files)
+    if changed:
+        notes.append('regenerated from source: ' + ', '.join(changed))
+    bad = [i for i in infos if i.get('error')]
+    for i in bad:               # the function left the translated subset: its tie theorem cannot check
+        notes.append('source translator: %s: %s' % (i['function'], i['error']))
+    return not bad, infos
+
+
+def srctie_selftest(pid: str, seed: int, notes: list):
+    """translator validation on this run's source: CPython vs the generated definitions on a few hundred
+    argument tuples per function (harness/py2lean_selftest.py, ~1 s).  -> (ok, report)"""
+    if os.environ.get('BV_SRCTIE_SELFTEST') == '0' or not srctie_specs(pid):
+        return True, None
+    try:
+        import py2lean_selftest
+        n, report = py2lean_selftest.run([pid], quick=True, seed=seed, verbose=False)
+    except subprocess.TimeoutExpired:
+        raise
+    except Exception as e:      # e.g. the generated text does not elaborate: the proof side does not check
+        notes.append('source translator self-test could not run: %r' % (e,))
+        return False, None
+    if n:
+        notes.append('source translator self-test: generated definitions disagree with CPython: %r'
+                     % (report['_mismatches'][:2],))
+    return n == 0, report
+
+
+def _srctie_theorems(pid: str):
+    p = os.path.join(LEAN, 'BoltonsVerif', pid, 'SrcTie.lean')
+    if not os.path.exists(p):
+        return p, []
+    names, ns = [], []
+    for line in _strip_comments(open(p).read()).splitlines():
+        m = re.match(r'\s*namespace\s+(\S+)', line)
+        if m:
+            ns.append(m.group(1))
+            continue
+        m = re.match(r'\s*end\s+(\S+)', line)
+        if m and ns and ns[-1] == m.group(1):
+            ns.pop()
+            continue
+        m = re.match(r'\s*(?:@\[[^\]]*\]\s*)?(?:private\s+|protected\s+)?theorem\s+([^\s:({\[]+)', line)
+        if m:
+            names.append('.'.join(ns + [m.group(1)]))
+    return p, names
+
+
+def _srctie_prove(pid: str, res: dict, thorough: bool):
+    """build BoltonsVerif.<pid>.SrcTie, audit the axioms of every theorem in it; extends `res` of lean_prove"""
+    specs = srctie_specs(pid)
+    if not specs:
+        return
+    t0 = time.time()
+    path, names = _srctie_theorems(pid)
+    mod = 'BoltonsVerif.%s.SrcTie' % pid
+    res['theorems'] = res['theorems'] + names
+    extra = [os.path.join(LEAN, 'BoltonsVerif', f) for f in ('PyRt.lean', 'PyRtLemmas.lean')]
+    extra += [os.path.join(LEAN, 'BoltonsVerif', 'Generated', 'Src_%s.lean' % m.split('.')[-1])
+              for m in sorted({sp['module'] for sp in specs})]
+    for f in extra:
+        if os.path.exists(f):
+            src = _string_lit.sub('""', _strip_comments(open(f).read()))
+            for m in FORBIDDEN_RE.finditer(src):
+                res['forbidden'].append('%s: %s' % (os.path.relpath(f, LEAN), m.group(0).strip()))
+    failed = []
+    built = False
+    out_a = ''
+    if names:
+        with BuildLock():
+            rc, out = _run(['lake', 'build', mod])
+            built = rc == 0
+            if not built:
+                res['log'] += out[-6000:]
+            audit_dir = os.path.join(LEAN, '.lake', 'audit')
+            os.makedirs(audit_dir, exist_ok=True)
+            audit = os.path.join(audit_dir, 'AuditSrcTie_%s_%d.lean' % (pid, os.getpid()))
+            if built:
+                body = 'import %s\n' % mod
+            else:       # inline the file so that the theorems that no longer check are named
+                for imp in re.findall(r'^import\s+(\S+)', open(path).read(), re.M):
+                    if imp.startswith('BoltonsVerif.'):
+                        rci, outi = _run(['lake', 'build', imp])
+                        if rci != 0:
+                            res['log'] += outi[-3000:]
+                body = open(path).read() + '\n'
+            body += ''.join('#print axioms %s\n' % n for n in names)
+            with open(audit, 'w') as f:
+                f.write(body)
+            rc_a, out_a = _run(['lake', 'env', 'lean', audit])
+            try:
+                os.unlink(audit)
+            except OSError:
+                pass
+            if thorough and built:
+                rc_c, out_c = _run(['lake', 'env', 'leanchecker', mod], timeout=3000)
+                res['leanchecker_srctie'] = {'rc': rc_c, 'tail': out_c[-300:]}
+                if rc_c != 0:
+                    res['log'] += '\nleanchecker (SrcTie) failed:\n' + out_c[-2000:]
+                    failed.append('%s (leanchecker)' % mod)
+        flat = re.sub(r'\s+', ' ', out_a)
+        seen = {}
+        for m in re.finditer(r"'([^']+)' depends on axioms: \[([^\]]*)\]", flat):
+            seen[m.group(1)] = {a.strip() for a in m.group(2).split(',') if a.strip()}
+        for m in re.finditer(r"'([^']+)' does not depend on any axioms", flat):
+            seen[m.group(1)] = set()
+        bad_lines = set()
+        if not built:
+            res['log'] += '\n' + out_a[-4000:]
+            src_lines = open(path).read().splitlines()
+            for ln in [int(m.group(1)) for m in re.finditer(r':(\d+):\d+: error', out_a)]:
+                for i in range(min(ln, len(src_lines)) - 1, -1, -1):
+                    m = re.match(r'\s*(?:@\[[^\]]*\]\s*)?theorem\s+([^\s:({\[]+)', src_lines[i])
+                    if m:
+                        bad_lines.add(m.group(1))
+                        break
+        for n in names:
+            ax = seen.get(n)
+            if ax is None or n.split('.')[-1] in bad_lines:
+                failed.append(n)
+            elif ax - ALLOWED_AXIOMS:
+                res['bad_axioms'][n] = sorted(ax - ALLOWED_AXIOMS)
+                failed.append(n)
+            else:
+                res['discharged'].append(n)
+    for sp in specs:            # every translated function must have its tie theorem
+        if sp['tie_theorem'] not in names:
+            failed.append('%s (missing from %s/SrcTie.lean)' % (sp['tie_theorem'], pid))
+    if not built and not failed:
+        failed.append('%s (build failed before any theorem could be attributed)' % mod)
+    res['failed'] = res['failed'] + failed
+    res['srctie_built'] = built
+    res['srctie_wall_s'] = round(time.time() - t0, 2)
+    res['ok'] = bool(res['ok'] and built and not failed and not res['forbidden'])
+# --- end of SrcTie definitions ----------------------------------------------------------------------
 
 
 class Driver:
@@ -462,6 +628,16 @@ def run_check(prop_cls, tier: str, seed: int, replay: str | None = None) -> int:
         gen = None
         notes.append('translator failed: %r' % (e,))
         traceback.print_exc()
+    # --- source-translator tie (SrcTie) ---
+    t_srctie = time.time()
+    srctie_ok, srctie_infos = srctie_regen(pid, notes)
+    srctie_report = None
+    if srctie_ok and srctie_infos:
+        srctie_ok, srctie_report = srctie_selftest(pid, seed, notes)
+    if not srctie_ok:
+        gen = None
+    t_srctie = time.time() - t_srctie
+    # --- end SrcTie ---
 
     # 2. prove
     proof = lean_prove(pid, prop.thorough)
@@ -657,11 +833,19 @@ def run_check(prop_cls, tier: str, seed: int, replay: str | None = None) -> int:
             'histogram': prop.stats,
             'case_stream': stream_state,
             'notes': notes,
+            'source_translated_functions': srctie_infos,    # --- source-translator tie (SrcTie) ---
+            'source_translator_selftest': srctie_report,
+            'source_tie_wall_s': {'translate_and_selftest': round(t_srctie, 2), 'build_and_audit': proof.get('srctie_wall_s')},
         },
         'assumptions': list(prop.ASSUMPTIONS),
         'wall_s': round(wall, 2),
         'violations': len(violations) + (1 if rc == 1 and not violations else 0),
     }
+    if srctie_infos:     # --- source-translator tie (SrcTie) ---
+        ev['coverage']['checker_cmd'] += ' ; SrcTie: /venv/bin/python harness/py2lean.py (regenerate Generated/Src_*.lean from the source) && lake build BoltonsVerif.%s.SrcTie && <audit: #print axioms of every theorem in SrcTie.lean>' % pid
+        ev['coverage']['trusted_base'] = ev['coverage']['trusted_base'] + [
+            'harness/py2lean.py (source translator, restricted Python -> Lean definitions; rules in notes/SRCTIE.md) and '
+            'lean/BoltonsVerif/PyRt.lean (its runtime library); validated against CPython by harness/py2lean_selftest.py']
     evdir = os.environ.get('BV_EVIDENCE_DIR') or os.path.join(VERIF, 'evidence')
     os.makedirs(evdir, exist_ok=True)
     with open(os.path.join(evdir, pid + '.json'), 'w') as f:
